@@ -369,13 +369,17 @@ fn execute(sc: &Scenario) -> RunOutcome {
                         for x in rho.iter().step_by(rho.len() / 16 + 1) {
                             dg.f64(*x);
                         }
-                        // S2: finite and positive where the wall is not overwhelming
+                        // S2: finite and positive where the wall is not overwhelming (only for a
+                        // reported success: debug = true returns whatever iterate it has)
                         let bad = rho
                             .iter()
                             .zip(p.external_potential.iter())
                             .filter(|(r, v)| !r.is_finite() || (**v < 49.0 && **r <= 0.0))
                             .count();
-                        if bad > 0 {
+                        if bad > 0 && *debug {
+                            out.count("probe.debug_commit_with_invalid_density", 1);
+                        }
+                        if bad > 0 && !*debug {
                             out.violate("density-invalid", "density", format!("{}: {bad} grid points with non-finite or non-positive density after a successful solve", what(i)));
                         }
                         if *debug {
